@@ -8,7 +8,10 @@ import random
 
 from .. import common, conc
 
-GEN = ["Locks.v"]
+GEN = ['Locks.v', 'Decisions.v']
+DECISIONS = ['BuildDirs.error_building_file', 'BuildDirs.started_building_file', 'Cache._assert_doesnt_have_norm_cased_file', 'Cache._assert_doesnt_have_subbuild', 'Cache.abort_building_file', 'Cache.finish_building_file', 'Cache.finish_subbuild', 'Cache.start_building_file', 'Cache.start_subbuild', 'Cache.use_cached_operation']
+SITES = False
+ORDER = False
 
 W = {"*": [["write", ["lit", "x"]], ["ret", ["lit", 1]]]}
 FAIL_AFTER = {"*": [["write", ["lit", "x"]], ["raise", 1]]}
